@@ -149,6 +149,7 @@ type traceWriter struct {
 	f        *os.File
 	w        *bufio.Writer
 	lines    int
+	mute     bool   // count lines, write nothing
 	lastDeck string // JSON of the last deck written for the current run
 }
 
@@ -175,6 +176,10 @@ func errStr(err error) string {
 // emit one line: the state AFTER the call returned (also on the error path).
 // extra fields (e.g. "shuffled", "views") are merged into the line.
 func (t *traceWriter) emit(run int, reset bool, op string, seat int, x int64, err error, gs *pf.GameState, extra M) {
+	if t.mute {
+		t.lines++
+		return
+	}
 	deck := cards(gs.Meta.Deck)
 	db, _ := json.Marshal(deck)
 	ds := string(db)
